@@ -161,8 +161,18 @@ impl<R: BufRead + Seek + Position> ReadValue for ValueReader<R> {
         &mut self,
         len: usize,
     ) -> Result<<Self::Types as FieldTypes>::Bytes, ProtobufError> {
-        let mut buf = vec![0; len];
-        self.inner.read_exact(&mut buf)?;
+        // Only allocate the full length up front if it is known to be
+        // available. Otherwise let the buffer grow as data is read, so that a
+        // bogus length cannot cause a huge allocation.
+        let mut buf = if self.end.is_some() {
+            Vec::with_capacity(len)
+        } else {
+            Vec::new()
+        };
+        let n_read = (&mut self.inner).take(len as u64).read_to_end(&mut buf)?;
+        if n_read < len {
+            return Err(ProtobufError::new(ErrorKind::Eof));
+        }
         Ok(buf)
     }
 
